@@ -1,6 +1,6 @@
 (* PackageProofs.v — C03 / C16: structure of the saved package. *)
-From Coq Require Import Lia.
-From Odf Require Import model.Base model.XmlLex model.XmlTree model.NsTable model.Package.
+From Coq Require Import Lia PeanoNat Arith.
+From Odf Require Import model.Base model.XmlLex model.XmlTree model.NsTable model.Package proofs.XmlResolveProofs proofs.NsTableProofs.
 
 Definition names (es : list entry) : list str := map e_name es.
 
@@ -266,10 +266,15 @@ Proof.
 Qed.
 
 (* addObject: the reference returned is "./" + the folder the object will be stored in *)
-Theorem add_object_reference pf n child name : (pf = [] \/ exists x, pf = cSLASHc :: x) ->
-  exists x, snd (add_object pf n child name) = 46 :: cSLASHc :: x /\
-            objfolder (fst (add_object pf n child name)) = x ++ [cSLASHc] /\
-            o_folder (fst (add_object pf n child name)) = cSLASHc :: x.
+Lemma fresh_folder_shape fuel pf taken : forall n, exists m, fresh_folder fuel pf taken n = pf ++ sOBJECT ++ dec (N.of_nat m) /\ (n <= m <= n + fuel)%nat.
+Proof.
+  induction fuel as [|k IH]; intros n; cbn [fresh_folder]; [exists n; split; [reflexivity|lia]|].
+  destruct (existsb _ taken); [destruct (IH (S n)) as [m [E Hm]]; exists m; split; [exact E|lia]|exists n; split; [reflexivity|lia]].
+Qed.
+Theorem add_object_reference pf taken child name : (pf = [] \/ exists x, pf = cSLASHc :: x) ->
+  exists x, snd (add_object pf taken child name) = 46 :: cSLASHc :: x /\
+            objfolder (fst (add_object pf taken child name)) = x ++ [cSLASHc] /\
+            o_folder (fst (add_object pf taken child name)) = cSLASHc :: x.
 Proof.
   intros Hpf. unfold add_object. destruct child as [mt f hs p k]. cbn [fst snd objfolder o_folder].
   destruct name as [nm|].
@@ -280,9 +285,57 @@ Proof.
       * exists (c :: r). assert (E : match c with 47 => c :: r | _ => cSLASHc :: c :: r end = cSLASHc :: c :: r).
         { destruct c as [|pc]; [reflexivity|]. repeat (destruct pc as [pc|pc|]; try reflexivity). now contradiction Hc. }
         rewrite E. repeat split.
-  - destruct Hpf as [->|[x ->]].
-    + exists (tl sOBJECT ++ dec (N.of_nat (S n))). repeat split.
-    + exists (x ++ sOBJECT ++ dec (N.of_nat (S n))). repeat split.
+  - destruct (fresh_folder_shape (S (List.length taken)) pf taken (S (List.length taken))) as [m [-> _]].
+    destruct Hpf as [->|[x ->]].
+    + exists (tl sOBJECT ++ dec (N.of_nat m)). repeat split.
+    + exists (x ++ sOBJECT ++ dec (N.of_nat m)). repeat split.
+Qed.
+
+(* ... and a folder of its own: the default name is none of the folders the siblings have (pigeonhole over the numbers
+   |taken|+1 ... 2|taken|+2: they print differently, so one of them is free, and the search stops at the first free one) *)
+Lemma str_eqb_true_iff a b : str_eqb a b = true <-> a = b.
+Proof. apply str_eqb_eq. Qed.
+Lemma obj_name_inj pf a b : pf ++ sOBJECT ++ dec (N.of_nat a) = pf ++ sOBJECT ++ dec (N.of_nat b) -> a = b.
+Proof. intros H. apply app_inv_head in H. apply app_inv_head in H. apply NsTableProofs.dec_inj in H. now apply Nat2N.inj. Qed.
+Lemma fresh_folder_spec pf taken : forall fuel n,
+  (exists j, (j < fuel)%nat /\ ~ In (pf ++ sOBJECT ++ dec (N.of_nat (n + j))) taken) -> ~ In (fresh_folder fuel pf taken n) taken.
+Proof.
+  induction fuel as [|k IH]; intros n [j [Hj Hn]]; [lia|]. cbn [fresh_folder].
+  destruct (existsb (str_eqb (pf ++ sOBJECT ++ dec (N.of_nat n))) taken) eqn:E.
+  - apply IH. destruct j as [|j'].
+    + exfalso. apply Hn. rewrite Nat.add_0_r. apply existsb_exists in E as [y [Hy Ey]]. apply str_eqb_eq in Ey. now subst.
+    + exists j'. split; [lia|]. now replace (S n + j')%nat with (n + S j')%nat by lia.
+  - intros Hin. assert (existsb (str_eqb (pf ++ sOBJECT ++ dec (N.of_nat n))) taken = true); [|congruence].
+    apply existsb_exists. eexists. split; [exact Hin|now apply str_eqb_true_iff].
+Qed.
+Lemma NoDup_map_inj_on' {A B} (f : A -> B) (l : list A) :
+  (forall x y, In x l -> In y l -> f x = f y -> x = y) -> NoDup l -> NoDup (map f l).
+Proof.
+  intros Hinj Hn. induction Hn as [|x r Hx Hr IH]; [constructor|]. cbn [map]. constructor.
+  - intros Hin. apply in_map_iff in Hin as [y [E Hy]]. apply Hx. rewrite (Hinj x y); [exact Hy|now left|now right|now symmetry].
+  - apply IH. intros a b Ha Hb. apply Hinj; now right.
+Qed.
+Lemma some_free_number pf (taken : list str) n : exists j, (j <= List.length taken)%nat /\ ~ In (pf ++ sOBJECT ++ dec (N.of_nat (n + j))) taken.
+Proof.
+  set (L := map (fun j => pf ++ sOBJECT ++ dec (N.of_nat (n + j))) (seq 0 (S (List.length taken)))).
+  assert (HL : NoDup L).
+  { apply NoDup_map_inj_on'; [|apply seq_NoDup]. intros x y _ _ E. apply obj_name_inj in E. lia. }
+  destruct (forallb (fun y => existsb (str_eqb y) taken) L) eqn:F.
+  - exfalso. assert (I : incl L taken).
+    { intros y Hy. rewrite forallb_forall in F. specialize (F y Hy). apply existsb_exists in F as [z [Hz Ez]]. apply str_eqb_eq in Ez. now subst. }
+    apply (NoDup_incl_length HL) in I. assert (EL : List.length L = S (List.length taken)) by (unfold L; now rewrite map_length, seq_length). rewrite EL in I. exact (Nat.nle_succ_diag_l _ I).
+  - assert (G : exists y, In y L /\ existsb (str_eqb y) taken = false).
+    { clear HL. induction L as [|y r IH]; [discriminate|]. cbn [forallb] in F. destruct (existsb (str_eqb y) taken) eqn:Ey.
+      - cbn [andb] in F. destruct (IH F) as [z [Hz Ez]]. exists z. split; [now right|exact Ez].
+      - exists y. split; [now left|exact Ey]. }
+    destruct G as [y [Hy Fy]]. unfold L in Hy. apply in_map_iff in Hy as [j [E Hj]]. apply in_seq in Hj. exists j. split; [lia|].
+    subst y. intros Hin. assert (existsb (str_eqb (pf ++ sOBJECT ++ dec (N.of_nat (n + j)))) taken = true); [|congruence].
+    apply existsb_exists. eexists. split; [exact Hin|now apply str_eqb_true_iff].
+Qed.
+Theorem add_object_fresh pf taken child : ~ In (o_folder (fst (add_object pf taken child None))) taken.
+Proof.
+  unfold add_object. destruct child as [mt f hs p k]. cbn [fst o_folder]. apply fresh_folder_spec.
+  destruct (some_free_number pf taken (S (List.length taken))) as [j [Hj Hn]]. exists j. split; [lia|exact Hn].
 Qed.
 
 (* load(): an object folder of the source is loaded as an object whose folder is that very path *)
